@@ -14,7 +14,10 @@ def run(ctx, model_ok):
         ctx.cov["evaluations"] = st["ops"]
         ctx.cov["distinct_nontrivial"] = st["distinct_states"]
         ctx.cov["rule"] = ("seeded random histories (tree shape, op kind, scalar/vector input of length 0..5, start in auto∪[-N-3,N+3], "
-                           "anchor none/0/scalar/vector, all rotate_from_* forms, malformed inputs; op `angax`: rotate_from_angax with scalar/vector angles "
+                           "anchor none/0/scalar/vector, all rotate_from_* forms, malformed inputs; op `rotfrom`: the five thin wrappers rotate_from_rotvec/euler/matrix/mrp/quat "
+                           "with RAW arguments (octahedral rotation vectors in deg/rad, quaternions also negated / rescaled, MRPs, matrices, Euler angles k*90 deg for every valid "
+                           "1..3-letter extrinsic/intrinsic sequence as number / (W,) / (n,W) arrays, refused arguments), the model (Model/RotFrom.lean) classifying scalar/vector "
+                           "input and converting itself; ops `add` (fresh Sensor / Dipole / nested Collection with its own paths) and `remove`; op `angax`: rotate_from_angax with scalar/vector angles "
                            "k*90 deg or k*pi/2 rad, axis 'x'/'y'/'z' / scaled signed coordinate vectors / (0,0,0) / other strings, the model (Model/Angax.lean at "
                            "Float) doing the angle-axis -> rotation-vector conversion itself, from_rotvec = Rodrigues matrix snapped to the octahedral group); distinct = distinct full tree "
                            "states (all position/orientation paths) observed after an operation on the real objects")
@@ -30,9 +33,13 @@ def run(ctx, model_ok):
     ctx.cov.setdefault("evaluations", ost["oracle_ops"])
     ctx.cov.setdefault("distinct_nontrivial", ost["oracle_ops"])
     ctx.cov.setdefault("samples", [{"oracle": "see oracle stats"}])
-    ctx.cov["not_shown"] = ["scipy's from_rotvec/from_euler/from_matrix/from_mrp/from_quat conversions (assumed; exercised by the correspondence stream on the octahedral group); "
-                            "the conversions magpylib does itself before calling scipy are shown for rotate_from_angax (angax_axis_spec, angax_rotvec_spec, "
-                            "rotate_from_angax_eq_rotate), not for rotate_from_rotvec/euler/quat/matrix/mrp (thin wrappers around scipy constructors)",
+    ctx.cov["not_shown"] = ["scipy's conversion of ONE parameter set to a rotation (from_rotvec / from_quat / from_mrp / from_matrix; an Euler sequence is composed from elementary "
+                            "from_rotvec rotations in the model) is an opaque parameter (`RotFrom.Scipy`), and that scipy converts a stack row by row is assumed — both exercised by the "
+                            "`rotfrom` rows of the correspondence stream on the octahedral group; everything else of the six entry points (argument class -> scalar / vector input, "
+                            "degree flag, sequence check, multi-axis composition order, refused arguments leave the state) is modelled (Model/RotFrom.lean) and proved "
+                            "(rotate_from_any_eq_rotate, entry_points_share_start_semantics, paths_equal_length_always)",
+                            "rotate_from_euler with a 1-D array of n != 1 angles for a one-letter sequence (the docstring's `shape (n,)`, its own example `(15,30,45), 'z'`) is refused by "
+                            "the pinned scipy 1.18.1 (ValueError from Rotation.from_euler); the model follows the pinned behaviour (Entry.shape = none), the stream samples it",
                             "rotate_from_angax in IEEE double: a non-zero axis whose norm underflows to 0 (|axis| < ~1.5e-162) or a NaN angle/axis passes the validators, "
                             "gives NaN rotation vectors, raises scipy's ValueError and leaves NaN positions when an anchor is given (exact arithmetic: norm > 0 is proved)",
                             "floating-point rounding of rotation composition (oracle tolerance 1e-9)"]
